@@ -34,7 +34,7 @@ def M(cmd, obj="", run="", a="", **kw):
         kwargs["name"] = a or ("primary" if cmd == "create" else obj)
     elif cmd == "close_run" and a:
         kwargs["exit_status"] = a
-    elif cmd in ("set", "trigger", "stage", "unstage") and a:
+    elif cmd in ("set", "trigger", "stage", "unstage", "kickoff", "complete") and a:
         kwargs["group"] = a
     elif cmd == "wait":
         kwargs["group"] = a or None
@@ -59,7 +59,7 @@ def M(cmd, obj="", run="", a="", **kw):
 
 
 DEVICES = {"amotor": {"type": "AMotor"}, "apdet": {"type": "APaus"}, "det": {"type": "Det", "motors": ["motor"]}, "det2": {"type": "Det"}, "pdet": {"type": "Paus"},
-           "motor": {"type": "Motor"}, "motor2": {"type": "Motor"}, "mon1": {"type": "Mon"}}
+           "motor": {"type": "Motor"}, "motor2": {"type": "Motor"}, "mon1": {"type": "Mon"}, "fly1": {"type": "Flyer"}, "fly2": {"type": "Flyer"}}
 
 _point = [M("create", a="primary"), M("read", "det"), M("save")]
 
@@ -169,10 +169,26 @@ PROGRAMS = {
     # a suspender installed / removed by the plan itself (Msg('install_suspender') / Msg('remove_suspender'))
     "susmsg": {"msgs": [M("open_run"), M("checkpoint"), M("install_suspender", a="s1")] + _point + [M("checkpoint"), M("remove_suspender", a="s1"),
                         M("null"), M("close_run")]},
+    # flyers (kickoff / complete / collect; old-style describe_collect, one event page per collect)
+    "fly": {"msgs": [M("open_run"), M("checkpoint"), M("kickoff", "fly1", a="g1"), M("wait", a="g1"), M("complete", "fly1", a="g2"), M("wait", a="g2"),
+                     M("collect", "fly1"), M("close_run")]},
+    # never collected by the plan, run left open: the engine's clean-up collects (backstop_collect) and closes the run
+    "fly_left": {"msgs": [M("open_run"), M("checkpoint"), M("kickoff", "fly1", a="g1"), M("wait", a="g1"), M("null"), M("null")]},
+    # the plan's own clean-up closes the run (what run_wrapper does around bp.fly)
+    "fly_fin": {"msgs": [M("open_run"), M("checkpoint"), M("kickoff", "fly1", a="g1"), M("wait", a="g1"), M("sleep"), M("complete", "fly1", a="g2"),
+                         M("wait", a="g2"), M("collect", "fly1"), M("close_run")],
+                "kind": "finally", "try": [2, 8], "cleanup": [9, 9]},
+    # collected twice, data taken in between: the flyer's stream keeps counting, a rewind re-takes only what came after the checkpoint
+    "fly_twice": {"msgs": [M("open_run"), M("checkpoint"), M("kickoff", "fly1", a="g1"), M("wait", a="g1"), M("collect", "fly1"), M("checkpoint")] + _point
+                          + [M("kickoff", "fly1", a="g1"), M("wait", a="g1"), M("null"), M("collect", "fly1"), M("null"), M("close_run")]},
+    # two concurrent runs, a monitor in the first, one flyer in each, nothing collected or closed by the plan
+    "fly_multi": {"msgs": [M("open_run", run="k1"), M("monitor", "mon1", run="k1"), M("open_run", run="k2"), M("checkpoint"),
+                           M("kickoff", "fly1", run="k1", a="g1"), M("kickoff", "fly2", run="k2", a="g1"), M("wait", a="g1"), M("null")]},
     "cfginb": {"msgs": [M("open_run"), M("checkpoint"), M("create", a="primary"), M("read", "det"), M("configure", "det"), M("save"), M("close_run")]},
 }
 ASYNC_PLANS = {"amove", "aopen", "aselfpause_nores"}      # devices whose stop()/pause()/resume() are coroutines that really suspend
-MULTI_RUN_PLANS = {"multi", "multimon", "dupopen", "multi_close"}
+MULTI_RUN_PLANS = {"multi", "multimon", "dupopen", "multi_close", "fly_multi"}
+FLY_PLANS = {"fly", "fly_left", "fly_fin", "fly_twice", "fly_multi"}
 NOT_CONFORMANCE = {"dropper"}        # use commands RE.tla does not model (yet): monitored only
 
 BUILTINS = {
@@ -339,8 +355,9 @@ PROJECTIONS = {
 
 TRACE_CFG_CONSTS = {
     "RunKeys": {"", "k1", "k2"},
-    "Streams": {"primary", "baseline", "interruptions", "mon1"},
-    "Dets": {"det", "det2", "pdet", "apdet"}, "Motors": {"motor", "motor2", "amotor"}, "Mons": {"mon1"}, "Pausables": {"pdet", "apdet"}, "Flyers": set(),
+    "Streams": {"primary", "baseline", "interruptions", "mon1", "fly1_stream", "fly2_stream"},
+    "Dets": {"det", "det2", "pdet", "apdet"}, "Motors": {"motor", "motor2", "amotor"}, "Mons": {"mon1"}, "Pausables": {"pdet", "apdet"}, "Flyers": {"fly1", "fly2"},
+    "FlyStream": "<- FlyStreamDef", "FlyN": "<- FlyNDef",
     "AsyncDevs": {"amotor", "apdet"}, "Suspenders": "<- XSus", "SigOf": "<- SigOfDef", "SusFuts": "<- SusFutsDef",
     "ReadVal": "<- ReadValDef", "DataKeys": "<- DataKeysDef", "FutNames": {"f1", "f2", "s1a", "s1b", "s1c", "s1d", "s2a", "s2b", "s2c", "s2d"},
     "StreamOrder": "<- StreamOrderDef", "DevOrder": "<- DevOrderDef", "PlanLib": "<- PlanLibDef",
@@ -484,7 +501,8 @@ def corpus_spec(tier):
     quick = tier == "quick"
     sweeps = []
     progs = ["simple", "two", "fin", "move", "mon", "multi", "defer", "norew", "paus", "err", "openonly", "mon_then", "nores_open", "nores_rew", "nores_rew_ckpt", "nores_then_ckpt", "unstage_only", "cfg_late", "multi_close", "amove", "aopen", "aselfpause_nores",
-             "selfpause", "selfpause_nores", "selfpause_nores_fin", "selfdefer_nores", "norew_save"]
+             "selfpause", "selfpause_nores", "selfpause_nores_fin", "selfdefer_nores", "norew_save",
+             "fly", "fly_left", "fly_fin", "fly_twice", "fly_multi"]
     kinds = REQ_KINDS
     if quick:
         sweeps.append(dict(plans=progs, kinds=["pause", "suspend", "abort"], decisions=["resume"], ri=True))
@@ -541,6 +559,7 @@ def build_corpus(tier, only=None):
     scs += suspender_scenarios(tier)
     scs += random_bundle_programs(tier)
     scs += random_programs(tier)
+    scs += random_fly_programs(tier)
     scs += defer_pair_scenarios(tier)
     scs += double_suspension_scenarios(tier)
     scs += two_call_scenarios(tier)
@@ -614,6 +633,20 @@ def fault_scenarios(tier):
                 if not quick or p % 2 == 0:
                     out.append(with_inject(base, [{"at": p, "kind": "suspend", "arg": "f1"}, {"at": p + 2, "kind": "release", "arg": "f1"}],
                                            ["resume"] * 3, f"suspend@{p}"))
+    # flyers: kickoff / complete / collect that raise or report failure, in the plan and in the engine's backstop collection
+    for prog, op, mode in (("fly", "kickoff", "raise"), ("fly", "kickoff", "fail_now"), ("fly", "complete", "raise"), ("fly", "complete", "fail_later"),
+                           ("fly", "collect", "raise"), ("fly_left", "collect", "raise"), ("fly_fin", "complete", "raise"), ("fly_fin", "collect", "raise"),
+                           ("fly_twice", "collect", "raise"), ("fly_multi", "collect", "raise")):
+        base = base_scenario(prog, faults={"fly1": {op: mode}}, delay={"fly1": 1.0} if mode == "fail_later" else None)
+        base["id"] = f"{prog}|fault:fly1.{op}:{mode}"
+        out.append(base)
+        n = run_one(base)["points"]
+        for p in range(0, n + 1, 2 if quick else 1):
+            out.append(with_inject(base, [{"at": p, "kind": "pause"}], ["resume"] * 3, f"pause@{p}"))
+            if not quick:
+                out.append(with_inject(base, [{"at": p, "kind": "suspend", "arg": "f1"}, {"at": p + 2, "kind": "release", "arg": "f1"}],
+                                       ["resume"] * 3, f"suspend@{p}"))
+                out.append(with_inject(base, [{"at": p, "kind": "abort"}], ["resume"] * 3, f"abort@{p}"))
     base = base_scenario("move", delay={"motor": 1.0, "det": 1.0})
     base["id"] = "move|slow"
     n = run_one(base)["points"]
@@ -891,6 +924,76 @@ def random_programs(tier, seed=0):
     return out
 
 
+def random_fly_programs(tier, seed=0):
+    """seeded random programs around flyers (rf<n>): kickoff / complete / collect mixed with bundles, checkpoints, sleeps and a
+    second run with its own flyer; runs closed by the plan, by its clean-up, or left to the engine (backstop collection).
+    (fly1 is only used in the first run and fly2 in the second: RunBundler._uncollected is a python set, the specification
+    collects in DevOrder)"""
+    rng = random.Random(9000 + seed)
+    out = []
+    nprog = 12 if tier == "quick" else 40
+    for n in range(nprog):
+        key = rng.choice(["", "k1"])
+        msgs = [M("open_run", run=key)]
+        if rng.random() < 0.8:
+            msgs.append(M("checkpoint"))
+        flying = False
+        second = "none"          # none | open | closed
+        for _ in range(rng.randint(4, 8)):
+            r = rng.random()
+            if r < 0.25 and not flying:
+                msgs.append(M("kickoff", "fly1", run=key, a="g1"))
+                if rng.random() < 0.7:
+                    msgs.append(M("wait", a="g1"))
+                flying = True
+            elif r < 0.40 and flying:
+                msgs += [M("complete", "fly1", run=key, a="g2"), M("wait", a="g2")]
+            elif r < 0.60:
+                msgs.append(M("collect", "fly1", run=key))
+                flying = False
+            elif r < 0.72:
+                msgs += [M("create", run=key, a="primary"), M("read", "det", run=key), M("save", run=key)]
+            elif r < 0.82:
+                msgs.append(M("checkpoint"))
+            elif r < 0.88:
+                msgs.append(M("sleep"))
+            elif r < 0.93:
+                msgs.append(M("null"))
+            elif second == "none":
+                msgs += [M("open_run", run="k2"), M("kickoff", "fly2", run="k2", a="g3"), M("wait", a="g3")]
+                second = "open"
+            elif second == "open":
+                if rng.random() < 0.6:
+                    msgs.append(M("collect", "fly2", run="k2"))
+                msgs.append(M("close_run", run="k2"))
+                second = "closed"
+        body_end = len(msgs)
+        cleanup = []
+        if rng.random() < 0.7:
+            cleanup.append(M("close_run", run=key))
+        prog = {"msgs": msgs + cleanup}
+        if cleanup and rng.random() < 0.5:
+            prog.update({"kind": "finalize", "try": [1, body_end], "cleanup": [body_end + 1, body_end + len(cleanup)]})
+        name = f"rf{n}"
+        PROGRAMS[name] = prog
+        FLY_PLANS.add(name)
+        if second != "none":
+            MULTI_RUN_PLANS.add(name)
+        base = base_scenario(name)
+        b = run_one(base)
+        if b["error"]:
+            raise RuntimeError(f"random program {name} failed in the harness: {b['error']}")
+        out.append(base)
+        npts = b["points"]
+        k = 5 if tier == "quick" else 9
+        for p in sorted(rng.sample(range(npts + 1), min(k, npts + 1))):
+            out.append(with_inject(base, [{"at": p, "kind": "pause"}], ["resume"] * 4, f"pause@{p}|resume"))
+            out.append(with_inject(base, [{"at": p, "kind": "suspend", "arg": "f1"}, {"at": p + 2, "kind": "release", "arg": "f1"},
+                                          {"at": "blocked", "kind": "release", "arg": "f1"}], ["resume"] * 4, f"suspend@{p}|resume"))
+            out.append(with_inject(base, [{"at": p, "kind": "abort"}], ["resume"] * 4, f"abort@{p}|resume"))
+    return out
+
+
 def double_suspension_scenarios(tier):
     """two sequential suspensions (and pause/resume + suspension) in one call, after devices have been moved"""
     out = []
@@ -1019,7 +1122,7 @@ def corruptions(ev):
 MC_BASE = {
     "RunKeys": {"", "k1", "k2"}, "Streams": {"primary", "baseline", "interruptions", "mon1"},
     "Dets": {"det", "det2", "pdet", "apdet"}, "Motors": {"motor", "amotor"}, "Mons": {"mon1"}, "Pausables": {"pdet", "apdet"}, "Flyers": set(),
-    "AsyncDevs": set(),
+    "AsyncDevs": set(), "FlyStream": "<- FlyStreamDef", "FlyN": "<- FlyNDef",
     "ReadVal": "<- ReadValDef", "DataKeys": "<- DataKeysDef", "FutNames": {"f1", "f2"},
     "StreamOrder": "<- StreamOrderDef", "DevOrder": "<- DevOrderDef", "Prog": "<- ProgDef",
     "SuspPre": "<- SuspPreDef", "SuspPost": "<- SuspPostDef",
@@ -1027,7 +1130,8 @@ MC_BASE = {
 
 
 def mc_run(ctx, plan_name, *, max_req=2, req_kinds=REQ_KINDS, decisions=DECISIONS, max_faults=0, fault_kinds=(),
-           max_calls=1, max_updates=0, record_intr=True, pre=(), post=(), workers=None, timeout=1500, tag=None, async_devs=(), suspenders=(), max_sus_ops=0):
+           max_calls=1, max_updates=0, record_intr=True, pre=(), post=(), workers=None, timeout=1500, tag=None, async_devs=(), suspenders=(), max_sus_ops=0,
+           flyers=()):
     """model-check REMC for one program; returns (TLCResult, propviol list)"""
     p = PROGRAMS[plan_name]
     d = ctx.out
@@ -1039,8 +1143,10 @@ ProgDef == {prog_tla(p)}
 XD == {{"det", "det2", "pdet", "motor", "mon1", "amotor", "apdet"}}
 ReadValDef == [d \\in XD |-> CASE d = "motor" -> "dict:motor,motor_setpoint" [] d = "amotor" -> "dict:amotor,amotor_setpoint" [] OTHER -> "dict:" \\o d]
 DataKeysDef == [d \\in XD |-> CASE d = "motor" -> {{"motor", "motor_setpoint"}} [] d = "amotor" -> {{"amotor", "amotor_setpoint"}} [] OTHER -> {{d}}]
-StreamOrderDef == <<"baseline", "interruptions", "mon1", "primary">>
-DevOrderDef == <<"det", "det2", "mon1", "motor", "pdet", "amotor", "apdet">>
+StreamOrderDef == <<{", ".join('"%s"' % x for x in sorted(MC_BASE["Streams"] | {f + "_stream" for f in flyers}))}>>
+DevOrderDef == <<"det", "det2", "mon1", "motor", "pdet", "amotor", "apdet", "fly1", "fly2">>
+FlyStreamDef == [f \\in {{"fly1", "fly2"}} |-> f \\o "_stream"]
+FlyNDef == [f \\in {{"fly1", "fly2"}} |-> 2]
 XSus == {{{", ".join('"%s"' % x for x in suspenders)}}}
 SigOfDef == [x \\in XSus |-> IF x = "s1" THEN "sig1" ELSE IF x = "s2" THEN "sig2" ELSE "sig3"]
 SusFutsDef == [x \\in XSus |-> <<x \\o "a", x \\o "b", x \\o "c">>]
@@ -1059,7 +1165,8 @@ SuspPostDef == <<{", ".join(tla_msg(m) for m in post)}>>
     consts.update({"MaxReq": max_req, "ReqKinds": set(req_kinds), "MaxFaults": max_faults, "FaultKinds": set(fault_kinds),
                    "Decisions": set(decisions), "MaxCalls": max_calls, "MaxUpdates": max_updates, "RecordIntr": record_intr,
                    "AsyncDevs": set(async_devs), "Suspenders": "<- XSus", "SigOf": "<- SigOfDef", "SusFuts": "<- SusFutsDef",
-                   "MaxSusOps": max_sus_ops,
+                   "MaxSusOps": max_sus_ops, "Flyers": set(flyers),
+                   "Streams": MC_BASE["Streams"] | {f + "_stream" for f in flyers},
                    "FutNames": {"f1", "f2"} | {x + g for x in suspenders for g in "abc"}})
     cfg = write_cfg(sd / f"{name}.cfg", consts, spec="MCSpec", action_constraints=["MCReport"])
     res = run_tlc(name, cfg, spec_dir=sd, workers=workers or int(os.environ.get("VERIF_TLC_WORKERS", 8)), tag=name, timeout=timeout)
@@ -1090,7 +1197,9 @@ MC_JOBS = {
               # a suspender object on a signal: install / remove / signal changes at every park (incl. before the first step)
               ("simple", dict(max_req=0, suspenders=["s1"], max_sus_ops=3)),
               # seeded random programs over the whole vocabulary, one request of any kind, every caller decision
-              ("rp0", dict(max_req=1)), ("rp5", dict(max_req=1))],
+              ("rp0", dict(max_req=1)), ("rp5", dict(max_req=1)),
+              # flyers: collect inside the plan, the engine's backstop collection (one more park inside the finally block), two runs
+              ("fly_left", dict(max_req=1, flyers=["fly1"])), ("fly", dict(max_req=1, flyers=["fly1"], max_faults=1, fault_kinds=["raise"]))],
     "thorough": [("simple", dict(max_req=2)), ("fin", dict(max_req=2)), ("two", dict(max_req=2, req_kinds=["pause", "suspend", "abort", "defer"])),
                  ("move", dict(max_req=1, max_faults=1, fault_kinds=["raise", "fail", "later"])),
                  ("mon", dict(max_req=1, max_updates=2)), ("multi", dict(max_req=1)), ("defer", dict(max_req=2, req_kinds=["defer", "pause", "abort"])),
@@ -1099,7 +1208,11 @@ MC_JOBS = {
                  ("simple", dict(max_req=0, suspenders=["s1"], max_sus_ops=3)),
                  ("simple", dict(max_req=1, req_kinds=["pause", "abort"], suspenders=["s1"], max_sus_ops=3)),
                  ("two", dict(max_req=0, suspenders=["s1", "s2"], max_sus_ops=3))]
-                + [(f"rp{i}", dict(max_req=1)) for i in range(10)] + [("rp3", dict(max_req=2, req_kinds=["pause", "suspend", "abort"]))],
+                + [(f"rp{i}", dict(max_req=1)) for i in range(10)] + [("rp3", dict(max_req=2, req_kinds=["pause", "suspend", "abort"]))]
+                + [("fly_left", dict(max_req=2, flyers=["fly1"])), ("fly", dict(max_req=1, flyers=["fly1"], max_faults=1, fault_kinds=["raise", "fail", "later"])),
+                   ("fly_fin", dict(max_req=2, req_kinds=["pause", "abort", "stop", "halt"], flyers=["fly1"])),
+                   ("fly_twice", dict(max_req=1, flyers=["fly1"], max_faults=1, fault_kinds=["raise"])),
+                   ("fly_multi", dict(max_req=1, flyers=["fly1", "fly2"], max_updates=1))],
 }
 
 
@@ -1108,6 +1221,7 @@ def get_mc(tier):
     def build():
         from harness.core import Ctx
         random_programs(tier)          # (defines the rp<n> programs the jobs below refer to)
+        random_fly_programs(tier)
         ctx = Ctx("_mc", tier, 0)
         out = []
         for idx, (plan, kw) in enumerate(MC_JOBS[tier]):
@@ -1121,6 +1235,31 @@ def get_mc(tier):
                         "wall": res.wall_s, "sigs": sigs})
         return out
     return cached(f"mc-{tier}", build)
+
+
+def sig_suffix(trace):
+    """what kind of execution a signature comes from, where that decides which await points exist / which history it is"""
+    trace_id = trace["id"]
+    pn = trace_id.split("|")[0]
+    s = "~async" if pn in ASYNC_PLANS else "~flyer" if (pn in FLY_PLANS or re.fullmatch(r"rf\d+", pn)) else ""
+    if s == "~flyer":
+        # did the PLAN close a run while a flyer that had been kicked off was not collected?  (the engine's backstop collection
+        # only sees runs that are still open when the engine exits)
+        flying, plancloses = set(), False
+        for e in trace["events"]:
+            if e[0] == "dev" and e[2] == "kickoff" and e[3] == "":
+                flying.add(e[1])
+            elif e[0] == "dev" and e[2] == "collect":
+                flying.discard(e[1])
+            elif e[0] == "msg" and e[1] == "close_run" and flying:
+                plancloses = True
+        if plancloses:
+            s += "~plancloses"
+        if "|fault:" in trace_id:
+            s += "~fault:" + trace_id.split("|fault:")[1].split("|")[0]      # the device fault that was injected
+    if trace_id.startswith("badconsumer:"):
+        s += "~consumer-fails-on-" + trace_id.split("|doc:")[1]      # the fault that was injected
+    return s
 
 
 def sig_class(sig):
@@ -1179,9 +1318,7 @@ def check_property(ctx, prop, proj="full", extra_rule=""):
     for i, tags, reqs in mon["pv"]:
         for tag in tags:
             if (pred(tag, traces[i]["id"]) if prop == "C14" else pred(tag)):
-                s = signature(tag, reqs) + ("~async" if traces[i]["id"].split("|")[0] in ASYNC_PLANS else "")
-                if traces[i]["id"].startswith("badconsumer:"):
-                    s += "~consumer-fails-on-" + traces[i]["id"].split("|doc:")[1]      # the fault that was injected
+                s = signature(tag, reqs) + sig_suffix(traces[i])
                 seen_classes.add(sig_class(s))
                 t = traces[i]
                 ctx.violation(s, f"{tag} on implementation trace {t['id']} (outcomes {t['outcomes']})",
